@@ -54,7 +54,7 @@ def _rand_factor(r, u, scope=None):
     vals = [0.0 if r.random() < zero else r.randint(1, 16) / 4.0 for _ in range(size)]
     if u.get("signed"):
         # general real-valued factors (log-potentials, differences of factors): a negative cell over a zero cell is -inf
-        vals = [-x if r.random() < 0.3 else x for x in vals]
+        vals = [-x if x != 0 and r.random() < 0.3 else x for x in vals]
     return {"scope": list(scope), "values": vals}
 
 
@@ -158,6 +158,15 @@ def check_member(ctx, names, card, phi, ref, what, slot, strict_nonfinite=False,
     if not strict_nonfinite and a_cmp.shape == r_cmp.shape and not np.all(np.isfinite(r_cmp)):
         mask = np.isfinite(r_cmp)
         a_cmp, r_cmp = a_cmp[mask], r_cmp[mask]
+    if a_cmp.shape == r_cmp.shape and np.any(np.isinf(r_cmp)):
+        # x/0 is infinite; its sign is the sign of x times the sign of the zero, and signed zeros (0 * -3 = -0.0, -0.0 + 0.0) are
+        # not defined by the property: an infinite reference cell demands an infinite cell, of either sign
+        inf_mask = np.isinf(r_cmp)
+        if not np.all(np.isinf(a_cmp[inf_mask])):
+            ctx.fail("values", f"{PROP}:values:{what}", {"slot": slot, "scope": ref.scope, "why": "finite cell where x/0 is infinite",
+                                                         "got": np.asarray(arr).reshape(-1).tolist()[:8], "want": np.asarray(ref.arr).reshape(-1).tolist()[:8]})
+            return False
+        a_cmp, r_cmp = a_cmp[~inf_mask], r_cmp[~inf_mask]
     # float32 run configuration: about 7 significant digits per operation, histories of up to 40 operations
     if not (close(a_cmp, r_cmp, atol=1e-4 * max(1.0, float(np.abs(r_cmp).max()) if r_cmp.size else 1.0), rtol=1e-3) if single else close(a_cmp, r_cmp, atol=1e-9, rtol=1e-9)):
         ctx.fail("values", f"{PROP}:values:{what}", {"slot": slot, "scope": ref.scope, "maxdiff": maxdiff(arr, ref.arr), "got": np.asarray(arr).round(6).reshape(-1).tolist()[:8],
